@@ -500,7 +500,7 @@ func runBlocks(c BlocksCase, o *vh.Obs) *vh.Failure {
 
 func TestC10(t *testing.T) {
 	vh.Drive(t, vh.Spec[ScanCase]{Name: "scan-modify", Quick: 4000, Thorough: 120000, Gen: genScan, Run: runScan})
-	vh.Drive(t, vh.Spec[MarchCase]{Name: "marching", Quick: 8, Thorough: 320, Gen: genMarch, Run: runMarch, Deadline: 3 * time.Minute})
+	vh.Drive(t, vh.Spec[MarchCase]{Name: "marching", Quick: 6, Thorough: 320, Gen: genMarch, Run: runMarch, Deadline: 3 * time.Minute})
 	if vh.Tier == "thorough" || vh.Replay != "" {
 		// 20+ blocks of 8 MB and 10^6 cube visits each under the race detector: minutes per case
 		vh.Enumerate(t, vh.Spec[BlocksCase]{Name: "marching-blocks", Run: runBlocks, Deadline: 15 * time.Minute},
